@@ -525,7 +525,8 @@ def _try_inline(st: ast.stmt, cands, caller, ccls, caller_locals) -> tuple[str, 
     def place(n: ast.AST) -> None:
         nonlocal k
         if isinstance(n, (ast.expr, ast.stmt, ast.excepthandler, ast.arg, ast.keyword, ast.match_case, ast.pattern)):
-            n.lineno = n.end_lineno = st.lineno
+            # a fractional line number: the call site's line for every report, source order inside the inlined block for rules that compare positions
+            n.lineno = n.end_lineno = int(st.lineno) + min(k, 9999) * 1e-4
             n.col_offset = n.end_col_offset = st.col_offset + k
             k += 1
         for c in ast.iter_child_nodes(n):
